@@ -214,3 +214,134 @@ func inProcessCompiles(cs *Case, opt bool) bool {
 
 // templates with a NUL byte cannot be passed in argv
 func cliTemplateOK(t string) bool { return !strings.ContainsRune(t, 0) && t != "" && t != "-" }
+
+// ---------------------------------------------------------------- global flags and funcs files
+
+// A funcs-file function must behave like its inlined body under every global flag that
+// changes what helpers print (--noformat, --color / --nocolor, --nounicode): main.go
+// applies those flags and loads the funcs files in one Before hook, and constant
+// sub-expressions of a body are folded when the file is loaded. Differential, both sides
+// through the real binary with identical flags: `rare <flags> --funcs f expression
+// '{fn {0}}'` against `rare <flags> expression '<body>'`, each optimised and with
+// --no-optimize. No in-process model of the flags is involved.
+
+var flagBodies = []string{
+	"Total: {hi 1500000} of {hi {0}}",
+	"{hf 1234567.5} / {hf {0}}",
+	"{bytesize 1048576}/{bytesize {0}}",
+	"{bytesizesi 1500000}/{bytesizesi {0}}",
+	"{downscale 1500000}~{downscale {0}}",
+	"{color red HIT} {color blue {0}}",
+	"{bar 3 10 10}|{bar {1} 10 10}",
+	"{percent 0.25}:{percent {2}}",
+	"{repeat - 3}{hi 1000}{0}",
+}
+
+var flagSets = [][]string{{"--noformat"}, {"--color"}, {"--nocolor"}, {"--nounicode"}, {"--noformat", "--color"}, {"--nounicode", "--noformat"}, {"--nu", "--color"}, {}}
+
+type flagRun struct {
+	out  string
+	ok   bool
+	diag string
+}
+
+func rareFlagRun(c *run.Ctx, flags []string, funcsFile string, funcsFirst, noOpt bool, tpl string, data []string) flagRun {
+	var args []string
+	if funcsFile != "" && funcsFirst {
+		args = append(args, "--funcs", funcsFile)
+	}
+	args = append(args, flags...)
+	if funcsFile != "" && !funcsFirst {
+		args = append(args, "--funcs", funcsFile)
+	}
+	args = append(args, "expression", "-n", "-r")
+	if noOpt {
+		args = append(args, "--no-optimize")
+	}
+	for _, e := range data {
+		args = append(args, "--data="+e)
+	}
+	args = append(args, "--", tpl)
+	cctx, cancel := context.WithTimeout(context.Background(), 90*time.Second)
+	defer cancel()
+	cmd := exec.CommandContext(cctx, c.RareBin, args...)
+	var env []string
+	for _, e := range os.Environ() {
+		if strings.HasPrefix(e, "NO_COLOR=") || strings.HasPrefix(e, "RARE_FUNC_FILES=") {
+			continue
+		}
+		env = append(env, e)
+	}
+	cmd.Env = env
+	var so, se bytes.Buffer
+	cmd.Stdout, cmd.Stderr = &so, &se
+	if err := cmd.Run(); err != nil {
+		return flagRun{so.String(), false, fmt.Sprintf("%v; stderr %s", err, run.Q(se.String()))}
+	}
+	return flagRun{so.String(), true, ""}
+}
+
+func runCLIFlags(c *run.Ctx, cs *Case) bool {
+	if c.RareBin == "" {
+		c.Count("cli_skipped_no_binary", 1)
+		return true
+	}
+	k := &checker{c: c, cs: cs, ok: true}
+	dir, err := os.MkdirTemp(c.WorkDir, "cliflags")
+	if err != nil {
+		c.Inconclusive("cannot create scratch dir: " + err.Error())
+		return true
+	}
+	defer os.RemoveAll(dir)
+	f := filepath.Join(dir, "gen.funcs")
+	if err := os.WriteFile(f, []byte(cs.File), 0o644); err != nil {
+		c.Inconclusive("cannot write funcs file: " + err.Error())
+		return true
+	}
+	data := cs.Ctxs[0].E
+	for _, noOpt := range []bool{false, true} {
+		inl := rareFlagRun(c, cs.Flags, "", false, noOpt, cs.Ref, data)
+		call := rareFlagRun(c, cs.Flags, f, cs.Env, noOpt, cs.Tpl, data)
+		if !inl.ok || !call.ok {
+			c.Count("cli_run_failed", 1)
+			c.Note("cli flag run failed: " + inl.diag + call.diag)
+			continue
+		}
+		c.Count("comparisons", 1)
+		c.Count("cmp_cli_flags_call_vs_inline", 1)
+		if inl.out != call.out {
+			k.fail(k.fp("cli-flags"), fmt.Sprintf("rare %s --funcs <file> expression%s %s printed %s, but the inlined body %s under the same flags prints %s; funcs file %s; data %q",
+				strings.Join(cs.Flags, " "), map[bool]string{true: " --no-optimize", false: ""}[noOpt], run.Q(cs.Tpl), run.Q(call.out), run.Q(cs.Ref), run.Q(inl.out), run.Q(cs.File), data))
+			return false
+		}
+	}
+	return k.ok
+}
+
+func cliFlagCases(c *run.Ctx) {
+	N := c.N(27, 270)
+	for i := 0; i < N; i++ {
+		if !c.Mine(i) {
+			continue
+		}
+		r := c.Rand("cliflags", i)
+		body := flagBodies[i%len(flagBodies)]
+		flags := flagSets[(i/len(flagBodies)+i)%len(flagSets)]
+		name := "ff" + string(rune('a'+r.Intn(26)))
+		file := name + " " + body + "\n"
+		if r.Bool() {
+			file = "# flags case\n\n" + name + " " + strings.Replace(body, " ", " \\\n   ", 1) + "\n"
+			if !strings.Contains(body, " ") {
+				file = name + " " + body + "\n"
+			}
+		}
+		data := []string{r.Pick([]string{"2500000", "1234.5", "999", "0"}), r.Pick([]string{"7", "3"}), "0.5"}
+		tpl := "{" + name + " {0} {1} {2}}"
+		cs := &Case{Kind: "cliflags", Tpl: tpl, Ref: body, File: file, Flags: flags, Env: r.Bool(), Ctxs: []Ctx{{E: data, K: map[string]string{}}}}
+		c.Begin(cs, 300*time.Second)
+		c.Nontrivial("cliflags", strings.Join(flags, " "), body)
+		c.Count("cli_flag_cases", 1)
+		runCase(c, cs)
+		c.End()
+	}
+}
